@@ -52,7 +52,149 @@ def main():
             fails += 1
             print('SELFTEST MISMATCH precedence', ch, got, want)
     print('selftest: %d precedence chains compared, %d mismatches' % (len(chains), fails))
+    fails += differential(prog, nat, b)
+    fails += vacuity_twin(prog, b)
     return 1 if fails else 0
+
+
+def val_json(b, v):
+    import struct
+    from mirsym.vals import deref_all
+    v = deref_all(v)
+    name = b.variant_name(v, 'build::ir::Val')
+    if name == 'Empty':
+        return {'t': 'null'}
+    if name == 'Boolean':
+        return {'t': 'bool', 'v': bool(v.fields[0])}
+    if name == 'Int':
+        return {'t': 'int', 'v': str(v.fields[0])}
+    if name == 'Float':
+        return {'t': 'float', 'bits': str(struct.unpack('<Q', struct.pack('<d', float(v.fields[0])))[0])}
+    if name == 'Str':
+        return {'t': 'str', 'v': str(deref_all(v.fields[0]))}
+    if name == 'List':
+        return {'t': 'list', 'v': [val_json(b, x) for x in deref_all(v.fields[0]).items]}
+    if name == 'Tuple':
+        return {'t': 'tuple', 'v': [[str(deref_all(deref_all(x).fields[0])), val_json(b, deref_all(x).fields[1])] for x in deref_all(v.fields[0]).items]}
+    return {'t': 'other'}
+
+
+def strip_float_text(j):
+    if isinstance(j, dict):
+        return {k: strip_float_text(x) for k, x in j.items() if not (j.get('t') == 'float' and k == 'v') and not (j.get('t') == 'other' and k == 'v')}
+    if isinstance(j, list):
+        return [strip_float_text(x) for x in j]
+    return j
+
+
+def differential(prog, nat, b):
+    "concrete differential on the kind of programs the checks use: tokenizer, parser+translator+VM, printer"
+    sys.path.insert(0, os.path.join(HERE, '..', 'checks'))
+    import C01
+    import C07
+    import C05
+    import symprog as SP
+    import ucgrun
+    from mirsym import interp
+    from mirsym.vals import VecV, CellV, Ref, deref_all
+    fails = 0
+    texts = [p['text'] for p in C01.programs('quick')][::3] + C07.DOCUMENTED[::4]
+    vals = [(7, 3, 2), (-5, 0, 9223372036854775807), (0, -1, 1)]
+    progs = []
+    for k, t in enumerate(texts):
+        v = vals[k % len(vals)]
+        for i in (3, 2, 1):
+            t = t.replace(SP.ph(i), SP.int_lit(v[i - 1]))
+        progs.append(t + (' r;' if 'let r ' in t else ''))
+    outs = nat.run_many([{'kind': 'eval', 'text': t, 'strict': True} for t in progs])
+    n = 0
+    for t, o in zip(progs, outs):
+        ctx = interp.Ctx(prog, fuel=2_000_000_000)
+        env = ucgrun.make_env(ctx)
+        fb = ctx.call('FileBuilder::new', [prog.to_path('<Eval>'), VecV([]), env])
+        cell = CellV(fb)
+        r = Ref(cell.slot, 0, ())
+        ctx.call('FileBuilder::set_strict', [r, True])
+        try:
+            res = ctx.call('FileBuilder::eval_string', [r, t])
+            got = {'ok': res.variant == 0}
+            if res.variant == 0:
+                got['val'] = val_json(b, res.fields[0])
+        except interp.Panic:
+            got = {'ok': False, 'panic': True}
+        n += 1
+        want_ok = bool(o.get('ok'))
+        if got['ok'] != want_ok or (want_ok and strip_float_text(got['val']) != strip_float_text(o['val'])):
+            fails += 1
+            print('SELFTEST MISMATCH eval', repr(t), got, {k: o.get(k) for k in ('ok', 'val', 'err', 'panic')})
+    print('selftest: %d programs evaluated in the engine and natively, %d mismatches so far' % (n, fails))
+    # tokenizer
+    toks = ['let a = 1 + 2;', 'x>=y&&z!~"a\\"b"', '// c\nlet  t={a=1,\r\n b=[1 , 2.5]};', 'a.b.0:2:10', 'import "std/é.ucg" as x']
+    outs = nat.run_many([{'kind': 'tokenize', 'text': t} for t in toks])
+    for t, o in zip(toks, outs):
+        ctx = interp.Ctx(prog, fuel=2_000_000_000)
+        from mirsym.vals import NONE
+        r = ctx.call('tokenizer::tokenize', [ctx.call('OffsetStrIter::new', [t]), NONE])
+        if (r.variant == 0) != bool(o.get('ok')):
+            fails += 1
+            print('SELFTEST MISMATCH tokenize ok', repr(t))
+            continue
+        if r.variant == 0:
+            got = [(b.variant_name(b.field(x, 'ast::Token', 'typ'), 'ast::TokenType'), str(deref_all(b.field(x, 'ast::Token', 'fragment'))),
+                    b.field(b.field(x, 'ast::Token', 'pos'), 'ast::Position', 'line'), b.field(b.field(x, 'ast::Token', 'pos'), 'ast::Position', 'column')) for x in r.fields[0].items]
+            want = [(x['typ'], x['fragment'], x['line'], x['column']) for x in o['tokens']]
+            if got != want:
+                fails += 1
+                print('SELFTEST MISMATCH tokens', repr(t), got, want)
+    # printer
+    fm = ['let a = [1, 2.0, {b = "s"}];\n// c\nlet f = func (x) => x + 1;\n', 'let r = 0:2:10;\nlet s = select (a, 1) => {\n  // inner\n  a = 1,\n};\n']
+    outs = nat.run_many([{'kind': 'fmt', 'text': t} for t in fm])
+    for t, o in zip(fm, outs):
+        ctx = interp.Ctx(prog, fuel=2_000_000_000)
+        r, cm = ucgrun.parse_program(ctx, t, comment_map=True)
+        got = C05.run_printer(ctx, r.fields[0], cm)
+        if got != o.get('out'):
+            fails += 1
+            print('SELFTEST MISMATCH fmt', repr(t), repr(got), repr(o.get('out')))
+    print('selftest: tokenizer (%d) and printer (%d) compared, %d mismatches in total' % (len(toks), len(fm), fails))
+    return fails
+
+
+def vacuity_twin(prog, b):
+    "a harness whose assertion is false must come back violated: `let r = a + 1;` with symbolic a, claim r == a"
+    import z3
+    import symprog as SP
+    import ucgrun
+    from mirsym import interp
+    ctx = interp.Ctx(prog, fuel=2_000_000_000)
+    a = ctx.bv('a', 64)
+    ctx.assume(a < 100)
+    stmts = SP.subst(prog, ucgrun.parse_ok(ctx, 'let r = %s + 1;' % SP.ph(1)), {1: a})
+    res, vm, env = ucgrun.run_program(ctx, stmts, env=ucgrun.make_env(ctx))
+    r = SP.binding(ctx, vm, 'r')
+    from mirsym.vals import deref_all
+    term = [x for x in _leaves(deref_all(r)) if z3.is_expr(x)]
+    if res.variant != 0 or not term:
+        print('SELFTEST vacuity twin did not reach its assertion')
+        return 1
+    if ctx.valid(term[0] == a) or not ctx.valid(term[0] == a + 1):
+        print('SELFTEST vacuity twin: a false assertion was reported valid (or a true one was not)')
+        return 1
+    print('selftest: vacuity twin violated as it must be')
+    return 0
+
+
+def _leaves(v):
+    from mirsym.vals import Agg, VecV, deref_all
+    v = deref_all(v)
+    if isinstance(v, Agg):
+        for f in v.fields:
+            yield from _leaves(f)
+    elif isinstance(v, VecV):
+        for f in v.items:
+            yield from _leaves(f)
+    else:
+        yield v
 
 
 if __name__ == '__main__':
